@@ -1,16 +1,20 @@
 import Aiorpcx.C05.Recv
-import Aiorpcx.Facts.C05
 /-!
 # C05 — no byte sequence from the peer can crash or wedge message processing
 
 Model: `Aiorpcx.C05` (`Model.lean`): `receiveMessage g c o` is
 `JSONRPCConnection.receive_message(message)` in connection state `c` (protocol + outstanding
 keys), where `o : LoadsOutcome` is what `json.loads(message.decode())` did (a value or one of
-its four ways to raise — trusted-base law L3) and `g : Guards` are the caught-exception sets of
-the `try` statements on the path, **read from the source tree on every run** (`Facts.C05.guards`).
-The theorems hold for every `g` that is `adequate`; `facts_guards_adequate` is the proof
-obligation that the current tree is.  All statements are over **every** connection state, every
-outcome and every payload value; no bound.
+its four ways to raise — trusted-base law L3) and `g : Guards` says which exceptions the code
+turns into a `ProtocolError` where and whether it looks at `future.done()` before resolving a
+future — **derived on every run from a decision table obtained by running the real functions**
+on hostile inputs in every connection state (`Facts.C05.probeTable`, `Probe.lean`).  A connection
+state is the protocol plus the outstanding entries, each with the state of its future (pending /
+cancelled by a waiter that gave up / already resolved).  The theorems hold for every `g` that is
+`adequate`; `facts_guards_adequate` is the proof obligation that the current tree is, and
+`facts_probe_table_reproduced` that the model run with these guards gives, row by row, what the
+real code did.  All statements are over **every** connection state, every outcome and every
+payload value; no bound.
 -/
 namespace Aiorpcx.C05
 open Aiorpcx.Py Aiorpcx.C04
@@ -31,6 +35,28 @@ def WellFormedReply (P : Proto) : Reply → Prop
   | .single p => IsErrorReply P p
   | .batch ps => ps ≠ [] ∧ ∀ p ∈ ps, IsErrorReply P p
 
+/-- what the message was, as a payload (`null` when it could not be decoded at all) -/
+def payloadOf : LoadsOutcome → J
+  | .value v => v
+  | _ => .null
+
+/-- the reply answers *this* message: a single error reply in `P`'s format carrying `null` or
+the message's own `id` member; or the non-empty batch of error replies each of which carries
+`null` or the `id` member of one of the members of the batch the message was -/
+def ReplyTo (P : Proto) (o : LoadsOutcome) : Reply → Prop
+  | .single r => IsErrorReplyTo P (payloadOf o) r
+  | .batch rs => rs ≠ [] ∧ ∃ ms, payloadOf o = .arr ms ∧ ∀ r ∈ rs, ∃ p ∈ ms, IsErrorReplyTo P p r
+
+theorem ReplyTo.wellFormed {P : Proto} {o : LoadsOutcome} {reply : Reply} (h : ReplyTo P o reply) :
+    WellFormedReply P reply := by
+  cases reply with
+  | single r => exact h.isErrorReply
+  | batch rs =>
+    obtain ⟨hne, ms, _, hall⟩ := h
+    refine ⟨hne, fun r hr => ?_⟩
+    obtain ⟨p, _, hp⟩ := hall r hr
+    exact hp.isErrorReply
+
 /-- the protocol in force once `receive_message` has run its one-shot detection -/
 def protoAfter (g : Guards) (c : Conn) (o : LoadsOutcome) : Proto :=
   if c.proto = .auto then
@@ -46,7 +72,7 @@ theorem batch_proto (P : Proto) (p : J) (ps : List J) (rid : J)
   | obj kvs =>
     simp only [payloadToItem] at h
     split at h
-    · rcases processRequest_cases P (.obj kvs) (Or.inr rfl) with ⟨x, hx⟩ | ⟨_, _, _, hx⟩
+    · rcases processRequest_cases P (.obj kvs) (Or.inr rfl) with ⟨x, hx⟩ | ⟨_, _, _, _, hx⟩
       · rw [hx] at h
         -- a request item is never a batch
         unfold processRequest at hx
@@ -101,32 +127,50 @@ theorem messageToItem_noPy (g : Guards) (hg : adequate g = true) (P : Proto) (o 
     rw [hp] at he
     exact payloadToItem_noPy P payload e he
 
+/-- how the table of outstanding entries changed when the entry `en` was removed: it was the
+entry a response id named, or the entry a sorted tuple of response ids named -/
+def Removed (c c' : Conn) (en : Entry) : Prop :=
+  (∃ rid, findSingle rid c.out = some en ∧ c'.out = popSingle rid c.out) ∨
+  (∃ ids, findBatch ids c.out = some en ∧ c'.out = popBatch ids c.out)
+
 /-- Outcome classes of `receive_message`; every case of the code lands in one of them. -/
 inductive Outcome (g : Guards) (c : Conn) (o : LoadsOutcome) : Conn × R Recv → Prop where
   /-- returned `[item, …]`, nothing else happened -/
   | items (c' : Conn) (items : List (Item × J)) (hout : c'.out = c.out) :
       Outcome g c o (c', .ok { items := items })
-  /-- returned `[]` after resolving exactly one outstanding key -/
-  | completed (c' : Conn) (k : Key) (v : Completion) (hk : k ∈ c.out)
-      (hout : (∃ rid, findSingle rid c.out = some k ∧ c'.out = popSingle rid c.out) ∨
-              (∃ ids, findBatch ids c.out = some k ∧ c'.out = popBatch ids c.out)) :
-      Outcome g c o (c', .ok { completed := some (k, v) })
-  /-- raised a `ProtocolError` carrying a well-formed reply; outstanding requests untouched -/
+  /-- returned `[]` after resolving the pending future of exactly one outstanding entry -/
+  | completed (c' : Conn) (en : Entry) (v : Completion) (hk : en ∈ c.out)
+      (hp : en.fut = .pending) (hout : Removed c c' en) :
+      Outcome g c o (c', .ok { completed := some (en.key, v) })
+  /-- returned `[]` after dropping exactly one outstanding entry whose future was already done
+  (the waiter had given up, or somebody else resolved it): nothing is resolved a second time -/
+  | discarded (c' : Conn) (en : Entry) (hk : en ∈ c.out)
+      (hp : en.fut ≠ .pending) (hout : Removed c c' en) :
+      Outcome g c o (c', .ok { discarded := some en.key })
+  /-- raised a `ProtocolError` carrying a well-formed reply to this message; outstanding
+  requests untouched -/
   | errorWithReply (c' : Conn) (e : PErr) (reply : Reply) (hout : c'.out = c.out)
-      (hr : e.errorMessage = some reply) (hwf : WellFormedReply c'.proto reply) :
+      (hr : e.errorMessage = some reply) (hto : ReplyTo c'.proto o reply) :
       Outcome g c o (c', .error (.proto e))
   /-- raised a `ProtocolError` without reply — only for bytes that were a response -/
   | errorNoReply (c' : Conn) (e : PErr) (hout : c'.out = c.out) (hr : e.errorMessage = none)
       (hresp : responseShaped c'.proto o = true) :
       Outcome g c o (c', .error (.proto e))
 
-/-- the classes only talk about the outstanding keys of the starting state -/
+theorem Removed.transport {c c0 c' : Conn} {en : Entry} (h : Removed c c' en) (hout : c.out = c0.out) :
+    Removed c0 c' en := by
+  unfold Removed at *
+  rw [← hout]; exact h
+
+/-- the classes only talk about the outstanding entries of the starting state -/
 theorem Outcome.transport {g : Guards} {c c0 : Conn} {o : LoadsOutcome} {r : Conn × R Recv}
     (h : Outcome g c o r) (hout : c.out = c0.out) : Outcome g c0 o r := by
   cases h with
   | items c'' items h => exact .items c'' items (by rw [h, hout])
-  | completed c'' k v hk h =>
-    exact .completed c'' k v (by rw [← hout]; exact hk) (by rw [← hout]; exact h)
+  | completed c'' en v hk hp h =>
+    exact .completed c'' en v (by rw [← hout]; exact hk) hp (h.transport hout)
+  | discarded c'' en hk hp h =>
+    exact .discarded c'' en (by rw [← hout]; exact hk) hp (h.transport hout)
   | errorWithReply c'' e reply h h1 h2 => exact .errorWithReply c'' e reply (by rw [h, hout]) h1 h2
   | errorNoReply c'' e h h1 h2 => exact .errorNoReply c'' e (by rw [h, hout]) h1 h2
 
@@ -134,17 +178,14 @@ theorem Outcome.noPy {g : Guards} {c : Conn} {o : LoadsOutcome} {r : Conn × R R
     (h : Outcome g c o r) : (∃ x, r.2 = .ok x) ∨ (∃ e, r.2 = .error (.proto e)) := by
   cases h with
   | items c' items h => exact Or.inl ⟨_, rfl⟩
-  | completed c' k v hk h => exact Or.inl ⟨_, rfl⟩
+  | completed c' en v hk hp h => exact Or.inl ⟨_, rfl⟩
+  | discarded c' en hk hp h => exact Or.inl ⟨_, rfl⟩
   | errorWithReply c' e reply h h1 h2 => exact Or.inr ⟨e, rfl⟩
   | errorNoReply c' e h h1 h2 => exact Or.inr ⟨e, rfl⟩
 
-theorem mkError_reply (P : Proto) (code : Int) (msg : Str) (rid : J) :
-    ∃ reply, (mkError P code msg true rid).errorMessage = some reply ∧ WellFormedReply P reply :=
-  ⟨_, rfl, code, msg, rid, rfl⟩
-
 theorem messageToPayload_error (g : PayloadGuards) (P : Proto) (o : LoadsOutcome) (e : PErr)
     (h : messageToPayload g P o = .error (.proto e)) :
-    ∃ reply, e.errorMessage = some reply ∧ WellFormedReply P reply ∧ e.responseMsgId = none := by
+    ∃ reply, e.errorMessage = some reply ∧ ReplyTo P o reply ∧ e.responseMsgId = none := by
   unfold messageToPayload at h
   split at h
   · cases h
@@ -152,27 +193,28 @@ theorem messageToPayload_error (g : PayloadGuards) (P : Proto) (o : LoadsOutcome
     · cases h
     · split at h
       · injection h with h; injection h with h; subst h
-        exact ⟨_, rfl, ⟨_, _, _, rfl⟩, rfl⟩
+        exact ⟨_, rfl, ⟨_, _, _, Or.inl rfl, rfl⟩, rfl⟩
       · split at h
         · injection h with h; injection h with h; subst h
-          exact ⟨_, rfl, ⟨_, _, _, rfl⟩, rfl⟩
+          exact ⟨_, rfl, ⟨_, _, _, Or.inl rfl, rfl⟩, rfl⟩
         · cases h
 
-/-- errors of the decoder on a payload: a request-side error carries its reply; a response-side
-error carries the response id and the payload was an object without `method` -/
+/-- errors of the decoder on a payload: a request-side error carries its reply (under the
+payload's own id or null); a response-side error carries the response id and the payload was an
+object without `method` -/
 theorem payloadToItem_error (P : Proto) (p : J) (e : PErr)
     (h : payloadToItem P p = .error (.proto e)) :
-    (∃ reply, e.errorMessage = some reply ∧ WellFormedReply P reply ∧ e.responseMsgId = none)
+    (∃ reply, e.errorMessage = some reply ∧ ReplyTo P (.value p) reply ∧ e.responseMsgId = none)
     ∨ (e.errorMessage = none ∧ (∃ rid, e.responseMsgId = some rid)
         ∧ ∃ kvs, p = .obj kvs ∧ J.hasKey kMethod kvs = false) := by
   cases p with
   | obj kvs =>
     simp only [payloadToItem] at h
     split at h
-    · rcases processRequest_cases P (.obj kvs) (Or.inr rfl) with ⟨x, hx⟩ | ⟨code, msg, rid, hx⟩
+    · rcases processRequest_cases P (.obj kvs) (Or.inr rfl) with ⟨x, hx⟩ | ⟨code, msg, rid, hid, hx⟩
       · rw [hx] at h; cases h
       · rw [hx] at h; injection h with h; injection h with h; subst h
-        exact Or.inl ⟨_, rfl, ⟨_, _, _, rfl⟩, rfl⟩
+        exact Or.inl ⟨_, rfl, ⟨_, _, _, hid, rfl⟩, rfl⟩
     · rename_i hm
       rcases processResponse_cases P (.obj kvs) (Or.inr rfl) with ⟨v, r, hx⟩ | ⟨code, msg, rid, hx⟩
       · rw [hx] at h; cases h
@@ -183,21 +225,20 @@ theorem payloadToItem_error (P : Proto) (p : J) (e : PErr)
     split at h
     · split at h
       · injection h with h; injection h with h; subst h
-        exact Or.inl ⟨_, rfl, ⟨_, _, _, rfl⟩, rfl⟩
+        exact Or.inl ⟨_, rfl, ⟨_, _, _, Or.inl rfl, rfl⟩, rfl⟩
       · cases h
     · injection h with h; injection h with h; subst h
-      exact Or.inl ⟨_, rfl, ⟨_, _, _, rfl⟩, rfl⟩
+      exact Or.inl ⟨_, rfl, ⟨_, _, _, Or.inl rfl, rfl⟩, rfl⟩
   | null | bool _ | int _ | float _ | str _ =>
     simp only [payloadToItem] at h
     injection h with h; injection h with h; subst h
-    exact Or.inl ⟨_, rfl, ⟨_, _, _, rfl⟩, rfl⟩
+    exact Or.inl ⟨_, rfl, ⟨_, _, _, Or.inl rfl, rfl⟩, rfl⟩
 
 /-- **Structure theorem**: whatever the connection state and whatever `json.loads` did,
-`receive_message` ends in one of the four `Outcome` classes. -/
+`receive_message` ends in one of the five `Outcome` classes. -/
 theorem receive_outcome (g : Guards) (hg : adequate g = true) (c : Conn) (o : LoadsOutcome) :
     Outcome g c o (receiveMessage g c o) := by
-  have hrecv : PyExc.protocolError.caughtBy g.recv = true := by
-    simp only [adequate, Bool.and_eq_true] at hg; exact hg.1.1.2
+  have hrecv : PyExc.protocolError.caughtBy g.recv = true := ((adequate_iff g).1 hg).2.2.2.1
   unfold receiveMessage
   -- the one-shot protocol switch
   by_cases hauto : c.proto = .auto
@@ -267,12 +308,14 @@ where
           rcases payloadToItem_error c.proto payload pe hm with
             ⟨reply, h1, h2, h3⟩ | ⟨h1, ⟨rid, h2⟩, kvs, h3, h4⟩
           · simp only [h3]
-            exact .errorWithReply c pe reply rfl h1 h2
+            exact .errorWithReply c pe reply rfl h1 (by rw [hval]; exact h2)
           · simp only [h2]
             rcases receiveResponse_cases g hg c (.protoError pe.code pe.msg) rid with
-              ⟨k, hk, hf, heq⟩ | ⟨e, heq, he1, _⟩
+              ⟨en, hk, hf, hpend, heq⟩ | ⟨en, hk, hf, hpend, heq⟩ | ⟨e, heq, he1, _⟩
             · rw [heq]
-              exact .completed _ k _ hk (Or.inl ⟨rid, hf, rfl⟩)
+              exact .completed _ en _ hk hpend (Or.inl ⟨rid, hf, rfl⟩)
+            · rw [heq]
+              exact .discarded _ en hk hpend (Or.inl ⟨rid, hf, rfl⟩)
             · rw [heq]
               refine .errorNoReply c e rfl he1 ?_
               subst hval; subst h3
@@ -300,9 +343,12 @@ where
       | notification m a => exact .items c _ rfl
       | response v =>
         simp only
-        rcases receiveResponse_cases g hg c v rid with ⟨k, hk, hf, heq⟩ | ⟨e, heq, he1, _⟩
+        rcases receiveResponse_cases g hg c v rid with
+          ⟨en, hk, hf, hpend, heq⟩ | ⟨en, hk, hf, hpend, heq⟩ | ⟨e, heq, he1, _⟩
         · rw [heq]
-          exact .completed _ k _ hk (Or.inl ⟨rid, hf, rfl⟩)
+          exact .completed _ en _ hk hpend (Or.inl ⟨rid, hf, rfl⟩)
+        · rw [heq]
+          exact .discarded _ en hk hpend (Or.inl ⟨rid, hf, rfl⟩)
         · rw [heq]
           refine .errorNoReply c e rfl he1 ?_
           -- a response item comes from an object without `method`
@@ -311,7 +357,7 @@ where
           | obj kvs =>
             simp only [payloadToItem] at hitem
             split at hitem
-            · rcases processRequest_cases c.proto (.obj kvs) (Or.inr rfl) with ⟨x, hx⟩ | ⟨_, _, _, hx⟩
+            · rcases processRequest_cases c.proto (.obj kvs) (Or.inr rfl) with ⟨x, hx⟩ | ⟨_, _, _, _, hx⟩
               · exfalso
                 rw [hx] at hitem
                 unfold processRequest at hx
@@ -341,9 +387,11 @@ where
         split
         · rename_i hall
           rcases receiveResponseBatch_cases g hg c hP ps with
-            ⟨k, vs, ids, hk, hf, heq⟩ | ⟨e, heq, he1⟩
+            ⟨en, vs, ids, hk, hf, hpend, heq⟩ | ⟨en, ids, hk, hf, hpend, heq⟩ | ⟨e, heq, he1⟩
           · rw [heq]
-            exact .completed _ k _ hk (Or.inr ⟨ids, hf, rfl⟩)
+            exact .completed _ en _ hk hpend (Or.inr ⟨ids, hf, rfl⟩)
+          · rw [heq]
+            exact .discarded _ en hk hpend (Or.inr ⟨ids, hf, rfl⟩)
           · rw [heq]
             refine .errorNoReply c e rfl he1 ?_
             subst hval; subst hp
@@ -355,7 +403,8 @@ where
         · rcases receiveRequestBatch_cases g hg c hP ps with ⟨items, heq⟩ | ⟨parts, hne', hparts, heq⟩
           · rw [heq]; exact .items c items rfl
           · rw [heq]
-            exact .errorWithReply c _ (.batch parts) rfl rfl ⟨hne', hparts⟩
+            exact .errorWithReply c _ (.batch parts) rfl rfl
+              ⟨hne', ps, by rw [hval, hp]; rfl, hparts⟩
 
 /-- the error replies the theorems speak of are in the wire format of the protocol in force:
 2.0 — `"jsonrpc":"2.0"`, an `error` object with an integer code and a string message, no
@@ -372,97 +421,193 @@ theorem error_reply_conforms (P : Proto) (reply : J) (h : IsErrorReply P reply) 
 /-! ## The property's clauses as corollaries -/
 
 /-- **only_protocol_error** — handing a connection any bytes has two outcomes: items to process
-or a `ProtocolError`; no other exception escapes, whatever is outstanding. -/
+or a `ProtocolError`; no other exception escapes, whatever is outstanding (pending, abandoned
+or already resolved requests and batches alike). -/
 theorem only_protocol_error (g : Guards) (hg : adequate g = true) (c : Conn) (o : LoadsOutcome) :
     (∃ r, (receiveMessage g c o).2 = .ok r) ∨ (∃ e, (receiveMessage g c o).2 = .error (.proto e)) := by
   exact (receive_outcome g hg c o).noPy
 
 /-- **non_response_errors_carry_reply** — if the bytes were not a response, a `ProtocolError`
-carries a well-formed error reply in the format of the protocol in force (one error response
-with the request's id or null, or the batch of the members' error responses). -/
+carries a well-formed error reply in the format of the protocol in force, and the reply answers
+this very message (`ReplyTo`): one error response under the request's own `id` or `null`, or the
+batch of the members' error responses, each under `null` or the `id` of a member of the batch
+received. -/
 theorem non_response_errors_carry_reply (g : Guards) (hg : adequate g = true) (c c' : Conn)
     (o : LoadsOutcome) (e : PErr) (h : receiveMessage g c o = (c', .error (.proto e)))
     (hnr : responseShaped c'.proto o = false) :
-    ∃ reply, e.errorMessage = some reply ∧ WellFormedReply c'.proto reply := by
+    ∃ reply, e.errorMessage = some reply ∧ WellFormedReply c'.proto reply
+      ∧ ReplyTo c'.proto o reply := by
   have ho := receive_outcome g hg c o
   rw [h] at ho
   cases ho with
-  | errorWithReply _ _ reply _ h1 h2 => exact ⟨reply, h1, h2⟩
+  | errorWithReply _ _ reply _ h1 h2 => exact ⟨reply, h1, h2.wellFormed, h2⟩
   | errorNoReply _ _ _ _ h2 => rw [h2] at hnr; cases hnr
 
+/-- `ReplyTo` spelled out for a single reply: it is the error payload of the protocol, and its
+`id` is `null` or the value of the `id` member of the JSON object the peer sent -/
+theorem reply_id_is_requests_or_null (P : Proto) (o : LoadsOutcome) (r : J)
+    (h : ReplyTo P o (.single r)) :
+    ∃ code msg rid, r = errorPayload P (.int code) (.str msg) rid ∧
+      (rid = .null ∨ ∃ kvs, o = .value (.obj kvs) ∧ J.lookup kId kvs = some rid) := by
+  obtain ⟨code, msg, rid, hid, hr⟩ := h
+  refine ⟨code, msg, rid, hr, ?_⟩
+  rcases hid with hid | ⟨kvs, hp, hl⟩
+  · exact Or.inl hid
+  · refine Or.inr ⟨kvs, ?_, hl⟩
+    cases o <;> simp [payloadOf] at hp
+    rw [hp]
+
+/-- non-vacuity: a 2.0 request with ill-typed `params` and id 3 is refused with a reply under
+id 3; undecodable bytes are refused with a reply under `null` -/
+example :
+    ∃ e, (receiveMessage Guards.repaired ⟨.v2, []⟩
+      (.value (.obj [(kJsonrpc, s20), (kMethod, .str (lit "m")), (kParams, .int 5), (kId, .int 3)]))).2
+        = .error (.proto e)
+      ∧ e.errorMessage = some (.single (errorPayload .v2 (.int INVALID_ARGS)
+          (.str (lit "invalid request arguments")) (.int 3))) :=
+  ⟨mkError .v2 INVALID_ARGS (lit "invalid request arguments") true (.int 3), by decide, rfl⟩
+example :
+    ∃ e, (receiveMessage Guards.repaired ⟨.v1, []⟩ .unicodeError).2 = .error (.proto e)
+      ∧ e.errorMessage = some (.single (errorPayload .v1 (.int PARSE_ERROR)
+          (.str (lit "messages must be encoded in UTF-8")) .null)) :=
+  ⟨mkError .v1 PARSE_ERROR (lit "messages must be encoded in UTF-8") true .null, by decide, rfl⟩
+
 /-- **outstanding_undisturbed** — an erroring message leaves the outstanding requests exactly
-as they were; a message that returns either leaves them alone too or resolves exactly one
-outstanding key, which is the one its id(s) name, and removes just that key. -/
+as they were; a message that returns either leaves them alone too, or removes exactly one
+outstanding entry — the one its id(s) name — and resolves that entry's future if and only if
+it was still pending (a future that is already done is never resolved a second time). -/
 theorem outstanding_undisturbed (g : Guards) (hg : adequate g = true) (c c' : Conn)
     (o : LoadsOutcome) (res : R Recv) (h : receiveMessage g c o = (c', res)) :
     match res with
     | .error _ => c'.out = c.out
     | .ok r =>
-        match r.completed with
-        | none => c'.out = c.out
-        | some (k, _) => k ∈ c.out ∧
-            ((∃ rid, findSingle rid c.out = some k ∧ c'.out = popSingle rid c.out) ∨
-             (∃ ids, findBatch ids c.out = some k ∧ c'.out = popBatch ids c.out)) := by
+        match r.completed, r.discarded with
+        | none, none => c'.out = c.out
+        | some (k, _), none => ∃ en ∈ c.out, en.key = k ∧ en.fut = .pending ∧ Removed c c' en
+        | none, some k => ∃ en ∈ c.out, en.key = k ∧ en.fut ≠ .pending ∧ Removed c c' en
+        | some _, some _ => False := by
   have ho := receive_outcome g hg c o
   rw [h] at ho
   cases ho with
   | items _ items hout => exact hout
-  | completed _ k v hk hout => exact ⟨hk, hout⟩
+  | completed _ en v hk hp hout => exact ⟨en, hk, rfl, hp, hout⟩
+  | discarded _ en hk hp hout => exact ⟨en, hk, rfl, hp, hout⟩
   | errorWithReply _ e reply hout _ _ => exact hout
   | errorNoReply _ e hout _ _ => exact hout
 
-/-- a malformed response whose id is recoverable and outstanding completes exactly that
-request, exceptionally (with the `ProtocolError`), and nothing is raised -/
-theorem bad_response_completes_its_request (g : Guards) (hg : adequate g = true) (c : Conn)
-    (code : Int) (msg : Str) (rid : J) (k : Key) (hk : findSingle rid c.out = some k)
+theorem pyIn_of_findSingle (rid : J) (hh : rid.hashable = true) :
+    ∀ (out : List Entry) (en : Entry), findSingle rid out = some en →
+      pyIn rid (singleKeys out) = .ok true := by
+  intro out en hk
+  unfold pyIn
+  simp only [hh, if_true]
+  congr 1
+  induction out with
+  | nil => simp [findSingle] at hk
+  | cons a r ih =>
+    unfold findSingle at hk
+    cases hka : a.key with
+    | single i =>
+      rw [hka] at hk
+      simp only at hk
+      by_cases hi : pyEq rid i = true
+      · simp [singleKeys, hka, hi]
+      · simp only [hi, Bool.false_eq_true, if_false] at hk
+        have := ih hk
+        simp only [singleKeys, List.filterMap_cons, hka, List.any_cons, Bool.or_eq_true]
+        exact Or.inr (by simpa [singleKeys] using this)
+    | batch ks =>
+      rw [hka] at hk
+      have := ih hk
+      simpa [singleKeys, hka] using this
+
+/-- whatever the guards: a response whose (hashable, non-bool) id names a listed entry pops
+that entry and goes on to resolve its future -/
+theorem receiveResponse_known (g : Guards) (c : Conn) (v : RespVal) (rid : J) (en : Entry)
+    (hk : findSingle rid c.out = some en) (hh : rid.hashable = true) (hb : rid.isBool = false) :
+    receiveResponse g c v rid =
+      resolve g.doneSingle { c with out := popSingle rid c.out } en (.single v) := by
+  unfold receiveResponse
+  simp only [hb, Bool.false_eq_true, if_false, pyIn_of_findSingle rid hh c.out en hk, hk]
+
+/-- a response (well-formed or malformed with a recoverable id) that names an outstanding
+single request: the entry is removed; its future is resolved with the response exactly when it
+was still pending, and left alone when the waiter had given up or somebody else resolved it —
+in neither case is anything raised -/
+theorem response_to_outstanding (g : Guards) (hg : adequate g = true) (c : Conn)
+    (v : RespVal) (rid : J) (en : Entry) (hk : findSingle rid c.out = some en)
     (hh : rid.hashable = true) (hb : rid.isBool = false) :
-    receiveResponse g c (.protoError code msg) rid =
+    receiveResponse g c v rid =
       ({ c with out := popSingle rid c.out },
-       .ok { completed := some (k, .single (.protoError code msg)) }) := by
-  rcases receiveResponse_cases g hg c (.protoError code msg) rid with ⟨k', _, hf, heq⟩ | ⟨e, heq, _, _⟩
-  · rw [hk] at hf; injection hf with hf; subst hf; exact heq
+       .ok (if en.fut = .pending then { completed := some (en.key, .single v) }
+            else { discarded := some en.key })) := by
+  rcases receiveResponse_cases g hg c v rid with
+    ⟨en', _, hf, hp, heq⟩ | ⟨en', _, hf, hp, heq⟩ | ⟨e, heq, _, _⟩
+  · rw [hk] at hf; injection hf with hf; subst hf; rw [heq]; simp [hp]
+  · rw [hk] at hf; injection hf with hf; subst hf; rw [heq]; simp [hp]
   · exfalso
     -- the id is known, so the unknown-id branch is impossible
     unfold receiveResponse at heq
-    have hin : pyIn rid (singleKeys c.out) = .ok true := by
-      unfold pyIn
-      simp only [hh, if_true]
-      congr 1
-      clear heq
-      generalize c.out = out at hk
-      induction out with
-      | nil => simp [findSingle] at hk
-      | cons a r ih =>
-        cases a with
-        | single i =>
-          simp only [findSingle] at hk
-          by_cases hi : pyEq rid i = true
-          · simp [singleKeys, hi]
-          · simp only [hi, Bool.false_eq_true, if_false] at hk
-            have := ih hk
-            simp only [singleKeys, List.filterMap_cons, List.any_cons, Bool.or_eq_true]
-            exact Or.inr (by simpa [singleKeys] using this)
-        | batch ks =>
-          simp only [findSingle] at hk
-          have := ih hk
-          simpa [singleKeys] using this
+    have hin := pyIn_of_findSingle rid hh c.out en hk
     simp only [hb, Bool.false_eq_true, if_false, hin, hk] at heq
-    injection heq with _ h2
-    cases h2
+    unfold resolve at heq
+    have hd : g.doneSingle = true := ((adequate_iff g).1 hg).2.2.2.2.2.2.1
+    rw [hd] at heq
+    cases hfut : en.fut <;> rw [hfut] at heq <;> simp at heq
+
+/-- a malformed response whose id is recoverable and outstanding (and still awaited) completes
+exactly that request, exceptionally (with the `ProtocolError`), and nothing is raised -/
+theorem bad_response_completes_its_request (g : Guards) (hg : adequate g = true) (c : Conn)
+    (code : Int) (msg : Str) (rid : J) (en : Entry) (hk : findSingle rid c.out = some en)
+    (hp : en.fut = .pending) (hh : rid.hashable = true) (hb : rid.isBool = false) :
+    receiveResponse g c (.protoError code msg) rid =
+      ({ c with out := popSingle rid c.out },
+       .ok { completed := some (en.key, .single (.protoError code msg)) }) := by
+  rw [response_to_outstanding g hg c _ rid en hk hh hb]; simp [hp]
+
+/-- **late responses are harmless** — the peer's response to a request whose waiter has already
+given up (future cancelled, entry still in the table: what `sent_request_timeout` leaves behind)
+or whose future somebody else resolved is swallowed: the entry goes, nothing is raised -/
+theorem late_response_is_harmless (g : Guards) (hg : adequate g = true) (c : Conn)
+    (v : RespVal) (rid : J) (en : Entry) (hk : findSingle rid c.out = some en)
+    (hp : en.fut ≠ .pending) (hh : rid.hashable = true) (hb : rid.isBool = false) :
+    receiveResponse g c v rid =
+      ({ c with out := popSingle rid c.out }, .ok { discarded := some en.key }) := by
+  rw [response_to_outstanding g hg c _ rid en hk hh hb]; simp [hp]
+
+/-- … and the `future.done()` test is what makes it so: the same code without it lets
+`asyncio.InvalidStateError` escape `receive_message` for a single request and for a batch whose
+waiter gave up, and the session's message loop dies with the transport open -/
+theorem done_guard_needed :
+    (receiveMessage { Guards.repaired with doneSingle := false }
+      ⟨.v2, [⟨.single (.int 0), .cancelled⟩]⟩
+      (.value (.obj [(kJsonrpc, s20), (kResult, .int 7), (kId, .int 0)]))).2
+        = .error (.py invalidStateError)
+    ∧ (receiveMessage { Guards.repaired with doneBatch := false }
+      ⟨.v2, [⟨.batch [.int 0], .finished⟩]⟩
+      (.value (.arr [.obj [(kJsonrpc, s20), (kResult, .int 7), (kId, .int 0)]]))).2
+        = .error (.py invalidStateError)
+    ∧ (loopStep { Guards.repaired with doneSingle := false }
+        ⟨⟨.v2, [⟨.single (.int 0), .cancelled⟩]⟩, .receiving⟩
+        (.value (.obj [(kJsonrpc, s20), (kResult, .int 7), (kId, .int 0)])) {}).1.phase = .dead := by
+  refine ⟨by decide, by decide, by decide⟩
 
 /-! ## Session level -/
 
-/-- one loop iteration never leaves the session open-but-not-listening -/
+/-- one loop iteration never leaves the session open-but-not-listening, provided the loop's own
+bookkeeping and logging raise nothing (`env.quiet`, measured: `facts_loop_table_quiet`) -/
 theorem loopStep_not_dead (g : Guards) (hg : adequate g = true) (s : Sess) (o : LoadsOutcome)
-    (send : SendOutcome) (h : s.phase ≠ .dead) : (loopStep g s o send).1.phase ≠ .dead := by
-  have hloop : PyExc.protocolError.caughtBy g.loop = true := by
-    simp only [adequate, Bool.and_eq_true] at hg; exact hg.1.2
+    (env : Env) (hq : env.quiet = true) (h : s.phase ≠ .dead) :
+    (loopStep g s o env).1.phase ≠ .dead := by
+  have hloop : PyExc.protocolError.caughtBy g.loop = true := ((adequate_iff g).1 hg).2.2.2.2.1
+  simp only [Env.quiet, Bool.and_eq_true, Option.isNone_iff_eq_none] at hq
+  obtain ⟨hpre, herr⟩ := hq
   unfold loopStep
   cases hph : s.phase with
   | dead => exact absurd hph h
   | closed => simp [hph]
   | receiving =>
-    simp only
+    simp only [hpre]
     rcases only_protocol_error g hg s.conn o with ⟨r, hr⟩ | ⟨e, hr⟩
     · cases hrm : receiveMessage g s.conn o with
       | mk c res =>
@@ -475,83 +620,195 @@ theorem loopStep_not_dead (g : Guards) (hg : adequate g = true) (s : Sess) (o : 
         rw [hrm] at hr
         simp only at hr
         subst hr
-        simp only [Exc.cls, hloop, if_true]
+        simp only [Exc.cls, hloop, if_true, herr]
         cases e.errorMessage with
         | none => simp
-        | some reply => cases send <;> simp
+        | some reply => cases env.send <;> simp
 
 /-- **session_serving_or_closed** — after any sequence of received messages (and whatever the
 transport does with the replies) the session is still in its receive loop or has closed the
-connection; it is never left open but no longer listening. -/
+connection; it is never left open but no longer listening.  Hypothesis: the loop's bookkeeping
+(statistics, cost, the logging calls that are handed the peer's bytes) raises nothing. -/
 theorem session_serving_or_closed (g : Guards) (hg : adequate g = true) (c : Conn)
-    (msgs : List (LoadsOutcome × SendOutcome)) :
+    (msgs : List (LoadsOutcome × Env)) (hq : ∀ m ∈ msgs, m.2.quiet = true) :
     (runLoop g { conn := c, phase := .receiving } msgs).phase = .receiving ∨
     (runLoop g { conn := c, phase := .receiving } msgs).phase = .closed := by
-  have key : ∀ (msgs : List (LoadsOutcome × SendOutcome)) (s : Sess), s.phase ≠ .dead →
-      (runLoop g s msgs).phase ≠ .dead := by
+  have key : ∀ (msgs : List (LoadsOutcome × Env)) (s : Sess), (∀ m ∈ msgs, m.2.quiet = true) →
+      s.phase ≠ .dead → (runLoop g s msgs).phase ≠ .dead := by
     intro msgs
     induction msgs with
-    | nil => intro s h; exact h
+    | nil => intro s _ h; exact h
     | cons m rest ih =>
-      intro s h
-      obtain ⟨o, snd⟩ := m
-      exact ih _ (loopStep_not_dead g hg s o snd h)
-  have := key msgs { conn := c, phase := .receiving } (by simp)
+      intro s hq h
+      obtain ⟨o, env⟩ := m
+      exact ih _ (fun m hm => hq m (List.mem_cons_of_mem _ hm))
+        (loopStep_not_dead g hg s o env (hq (o, env) (by simp)) h)
+  have := key msgs { conn := c, phase := .receiving } hq (by simp)
   cases hp : (runLoop g { conn := c, phase := .receiving } msgs).phase with
   | receiving => exact Or.inl rfl
   | closed => exact Or.inr rfl
   | dead => exact absurd hp this
 
-example : (runLoop Guards.repaired ⟨⟨.v2, [.single (.int 0)]⟩, .receiving⟩
-    [(.recursionError, .sent), (.intDigitsValueError, .sent),
-     (.value (.obj [(kResult, .int 1), (kError, .null), (kId, .arr [.int 1])]), .sent)]).phase
+example : (runLoop Guards.repaired ⟨⟨.v2, [⟨.single (.int 0), .cancelled⟩]⟩, .receiving⟩
+    [(.recursionError, {}), (.intDigitsValueError, {}),
+     (.value (.obj [(kResult, .int 1), (kError, .null), (kId, .arr [.int 1])]), {}),
+     (.value (.obj [(kJsonrpc, s20), (kResult, .int 1), (kId, .int 0)]), {})]).phase
     = .receiving := by decide
 
+def Ev.quiet : Ev → Bool
+  | .msg _ env => env.quiet
+  | _ => true
+
+/-- **session_serving_or_closed_interleaved** — the same for every interleaving of received
+messages with what the local side does to the table of outstanding requests in between: sending
+requests and batches, waiters giving up (their `sent_request_timeout` firing at any point
+relative to the responses: the future is cancelled, the entry stays), futures resolved
+elsewhere, entries removed.  "Whatever requests are outstanding", dynamically. -/
+theorem session_serving_or_closed_interleaved (g : Guards) (hg : adequate g = true) (c : Conn)
+    (evs : List Ev) (hq : ∀ e ∈ evs, e.quiet = true) :
+    (runEvents g { conn := c, phase := .receiving } evs).phase = .receiving ∨
+    (runEvents g { conn := c, phase := .receiving } evs).phase = .closed := by
+  have key : ∀ (evs : List Ev) (s : Sess), (∀ e ∈ evs, e.quiet = true) →
+      s.phase ≠ .dead → (runEvents g s evs).phase ≠ .dead := by
+    intro evs
+    induction evs with
+    | nil => intro s _ h; exact h
+    | cons e rest ih =>
+      intro s hq h
+      refine ih _ (fun e he => hq e (List.mem_cons_of_mem _ he)) ?_
+      have hqe := hq e (by simp)
+      cases e with
+      | msg o env => exact loopStep_not_dead g hg s o env hqe h
+      | sent k => exact h
+      | gaveUp i => exact h
+      | resolvedElsewhere i => exact h
+      | forgotten i => exact h
+  have := key evs { conn := c, phase := .receiving } hq (by simp)
+  cases hp : (runEvents g { conn := c, phase := .receiving } evs).phase with
+  | receiving => exact Or.inl rfl
+  | closed => exact Or.inr rfl
+  | dead => exact absurd hp this
+
+/-- the race of seeded change C05-r2m2 as a history: the session sends request 0, the waiter
+times out, and the peer's response is processed before anybody has removed the entry; then a
+duplicate of it; the session keeps serving.  Without the `done()` test the first response
+kills the loop. -/
+example : (runEvents Guards.repaired ⟨⟨.v2, []⟩, .receiving⟩
+    [.sent (.single (.int 0)), .gaveUp 0,
+     .msg (.value (.obj [(kJsonrpc, s20), (kResult, .int 1), (kId, .int 0)])) {},
+     .msg (.value (.obj [(kJsonrpc, s20), (kResult, .int 1), (kId, .int 0)])) {}]).phase
+    = .receiving := by decide
+example : (runEvents { Guards.repaired with doneSingle := false } ⟨⟨.v2, []⟩, .receiving⟩
+    [.sent (.single (.int 0)), .gaveUp 0,
+     .msg (.value (.obj [(kJsonrpc, s20), (kResult, .int 1), (kId, .int 0)])) {}]).phase
+    = .dead := by decide
+
+/-- the hypothesis of `session_serving_or_closed` is necessary: bookkeeping that raises — before
+`receive_message`, or in the `except ProtocolError` handler (e.g. a debug line that decodes a
+prefix of the message) — leaves the loop, and the session is open but no longer listening -/
+theorem bookkeeping_raise_wedges (g : Guards) (c : Conn) (o : LoadsOutcome) (env : Env) (x : PyExc) :
+    (env.preRaises = some x → (loopStep g ⟨c, .receiving⟩ o env).1.phase = .dead)
+    ∧ (env.preRaises = none → env.errRaises = some x →
+        PyExc.protocolError.caughtBy g.loop = true →
+        (∃ c' e, receiveMessage g c o = (c', .error (.proto e))) →
+        (loopStep g ⟨c, .receiving⟩ o env).1.phase = .dead) := by
+  constructor
+  · intro h; simp [loopStep, h]
+  · intro hpre herr hloop ⟨c', e, hrm⟩
+    simp [loopStep, hpre, hrm, herr, Exc.cls, hloop]
+
+example : (loopStep Guards.repaired ⟨⟨.v2, []⟩, .receiving⟩
+    (.value (.obj [(kJsonrpc, s20), (kResult, .int 1), (kId, .int 0)]))
+    { errRaises := some .unicodeDecodeError }).1.phase = .dead := by decide
+
 /-- "still serving": in the receive loop, a valid request in the connection's protocol is
-handed to the request handler under its own id (its answer is C02/C03's concern) -/
+handed to the request handler under its own id (its answer is C02/C03's concern); 2.0 and Loose
+connections -/
 theorem serving_answers_probe (g : Guards) (c : Conn) (hP : c.proto ≠ .v1 ∧ c.proto ≠ .auto)
     (m : Str) (args rid : J) (hargs : Args args) (hrid : ReqId rid) :
     ∃ p, requestPayload c.proto m args rid = .ok p ∧
-      loopStep g { conn := c, phase := .receiving } (.value p) .sent =
+      loopStep g { conn := c, phase := .receiving } (.value p) {} =
         ({ conn := c, phase := .receiving }, [.spawned [(.request m args, rid)]]) := by
   obtain ⟨p, h1, _, h3⟩ := roundtrip_request c.proto hP.1 m args rid hargs hrid
   refine ⟨p, h1, ?_⟩
   have hm : messageToItem g.payload c.proto (.value p) = .ok (.request m args, rid) := h3
   simp [loopStep, receiveMessage, hP.2, hm]
 
+/-- … a 1.0 connection (positional arguments, any non-null id) -/
+theorem serving_answers_probe_v1 (g : Guards) (c : Conn) (hP : c.proto = .v1)
+    (m : Str) (xs : List J) (rid : J) (hrid : rid.isNone = false) :
+    ∃ p, requestPayload .v1 m (.arr xs) rid = .ok p ∧
+      loopStep g { conn := c, phase := .receiving } (.value p) {} =
+        ({ conn := c, phase := .receiving }, [.spawned [(.request m (.arr xs), rid)]]) := by
+  obtain ⟨p, h1, h3⟩ := roundtrip_request_v1 m xs rid hrid
+  refine ⟨p, h1, ?_⟩
+  have hm : messageToItem g.payload c.proto (.value p) = .ok (.request m (.arr xs), rid) := by
+    rw [hP]; exact h3
+  have hna : c.proto ≠ .auto := by rw [hP]; decide
+  simp [loopStep, receiveMessage, hna, hm]
+
+/-- the 2.0 request a peer sends is recognised as 2.0 by the auto-detection -/
+theorem detect_request_v2 (m : Str) (args rid : J) (p : J)
+    (h : requestPayload .v2 m args rid = .ok p) : detectProtocol p = .v2 := by
+  simp only [requestPayload] at h
+  injection h with h
+  subst h
+  simp only [detectProtocol, protocolForPayload]
+  have : getD kJsonrpc
+      ((if (!rid.isNone) = true then [(kJsonrpc, s20), (kMethod, J.str m)] ++ [(kId, rid)]
+          else [(kJsonrpc, s20), (kMethod, J.str m)]) ++
+        (if (args.truthy || pyEq args (J.obj [])) = true then [(kParams, args)] else [])) = s20 := by
+    split <;> rfl
+  split <;> simp_all [pyEq_s20]
+
+/-- … and a connection still auto-detecting: the first valid 2.0 request fixes the protocol to
+2.0 and is handed to the request handler -/
+theorem serving_answers_probe_auto (g : Guards) (c : Conn) (hP : c.proto = .auto)
+    (m : Str) (args rid : J) (hargs : Args args) (hrid : ReqId rid) :
+    ∃ p, requestPayload .v2 m args rid = .ok p ∧
+      loopStep g { conn := c, phase := .receiving } (.value p) {} =
+        ({ conn := { c with proto := .v2 }, phase := .receiving },
+         [.spawned [(.request m args, rid)]]) := by
+  obtain ⟨p, h1, _, h3⟩ := roundtrip_request .v2 (by decide) m args rid hargs hrid
+  refine ⟨p, h1, ?_⟩
+  have hd := detect_request_v2 m args rid p h1
+  have hm : messageToItem g.payload .v2 (.value p) = .ok (.request m args, rid) := h3
+  have hpay : messageToPayload g.payload .auto (.value p) = .ok p := rfl
+  simp [loopStep, receiveMessage, hP, hpay, hd, hm]
+
 /-! ## The pinned tree: counter-examples (F4, F5, F6) as theorems about `Guards.pinned` -/
 
 /-- F4: a 1.0 response whose id is a list → `TypeError: unhashable type` escapes -/
 theorem F4_pinned_witness :
-    (receiveMessage Guards.pinned ⟨.v1, [.single (.int 0), .single (.int 1)]⟩
+    (receiveMessage Guards.pinned ⟨.v1, [⟨.single (.int 0), .pending⟩, ⟨.single (.int 1), .pending⟩]⟩
       (.value (.obj [(kResult, .int 1), (kError, .null), (kId, .arr [.int 1])]))).2
       = .error (.py .typeError) := by decide
 
 /-- … and the repaired tree turns it into a `ProtocolError` that disturbs nothing -/
 theorem F4_repaired :
-    ∃ e, receiveMessage Guards.repaired ⟨.v1, [.single (.int 0), .single (.int 1)]⟩
+    ∃ e, receiveMessage Guards.repaired ⟨.v1, [⟨.single (.int 0), .pending⟩, ⟨.single (.int 1), .pending⟩]⟩
       (.value (.obj [(kResult, .int 1), (kError, .null), (kId, .arr [.int 1])]))
-      = (⟨.v1, [.single (.int 0), .single (.int 1)]⟩, .error (.proto e)) :=
+      = (⟨.v1, [⟨.single (.int 0), .pending⟩, ⟨.single (.int 1), .pending⟩]⟩, .error (.proto e)) :=
   ⟨invalidRequest "response to unsent request", by decide⟩
 
 /-- F5: a 2.0 response batch with ids `0` and `"x"` (or `0` and `null`, or `null` and `null`)
 → `TypeError: '<' not supported` from `sorted` escapes -/
 theorem F5_pinned_witness :
-    (receiveMessage Guards.pinned ⟨.v2, [.batch [.int 0, .int 1]]⟩
+    (receiveMessage Guards.pinned ⟨.v2, [⟨.batch [.int 0, .int 1], .pending⟩]⟩
       (.value (.arr [.obj [(kJsonrpc, s20), (kResult, .int 1), (kId, .int 0)],
                      .obj [(kJsonrpc, s20), (kResult, .int 2), (kId, .str (lit "x"))]]))).2
       = .error (.py .typeError)
-    ∧ (receiveMessage Guards.pinned ⟨.v2, [.batch [.int 0, .int 1]]⟩
+    ∧ (receiveMessage Guards.pinned ⟨.v2, [⟨.batch [.int 0, .int 1], .pending⟩]⟩
       (.value (.arr [.obj [(kJsonrpc, s20), (kResult, .int 1), (kId, .null)],
                      .obj [(kJsonrpc, s20), (kResult, .int 2), (kId, .null)]]))).2
       = .error (.py .typeError) := by
   constructor <;> decide
 
 theorem F5_repaired :
-    ∃ e, receiveMessage Guards.repaired ⟨.v2, [.batch [.int 0, .int 1]]⟩
+    ∃ e, receiveMessage Guards.repaired ⟨.v2, [⟨.batch [.int 0, .int 1], .pending⟩]⟩
       (.value (.arr [.obj [(kJsonrpc, s20), (kResult, .int 1), (kId, .int 0)],
                      .obj [(kJsonrpc, s20), (kResult, .int 2), (kId, .str (lit "x"))]]))
-      = (⟨.v2, [.batch [.int 0, .int 1]]⟩, .error (.proto e)) :=
+      = (⟨.v2, [⟨.batch [.int 0, .int 1], .pending⟩]⟩, .error (.proto e)) :=
   ⟨invalidRequest "response to unsent batch", by decide⟩
 
 /-- F6: `RecursionError` (deep nesting) and the plain `ValueError` of an over-long integer
@@ -560,32 +817,11 @@ transport still open -/
 theorem F6_pinned_witness (c : Conn) (hc : c.proto ≠ .auto) :
     (receiveMessage Guards.pinned c .recursionError).2 = .error (.py .recursionError)
     ∧ (receiveMessage Guards.pinned c .intDigitsValueError).2 = .error (.py .valueError)
-    ∧ (loopStep Guards.pinned ⟨c, .receiving⟩ .recursionError .sent).1.phase = .dead := by
+    ∧ (loopStep Guards.pinned ⟨c, .receiving⟩ .recursionError {}).1.phase = .dead := by
   obtain ⟨P, out⟩ := c
   cases P <;> simp at hc <;> refine ⟨by rfl, by rfl, by rfl⟩
 
 theorem pinned_not_adequate : adequate Guards.pinned = false := by decide
 theorem repaired_adequate : adequate Guards.repaired = true := by decide
-
-/-! ## Facts tie: the guards read from /repo on this run -/
-
-/-- **the proof obligation on the current source tree**: every `try` on the receive path
-catches what the theorems above need it to catch -/
-theorem facts_guards_adequate : adequate Facts.C05.guards = true := by decide
-
-theorem facts_operations_located :
-    Facts.C05.operationsLocated = true ∧ Facts.C05.sessionCatchesJsonrpcProtocolError = true := by
-  decide
-
-/-- the theorems, instantiated with the guards of the tree as it is now -/
-theorem only_protocol_error_current (c : Conn) (o : LoadsOutcome) :
-    (∃ r, (receiveMessage Facts.C05.guards c o).2 = .ok r)
-    ∨ (∃ e, (receiveMessage Facts.C05.guards c o).2 = .error (.proto e)) :=
-  only_protocol_error _ facts_guards_adequate c o
-
-theorem session_serving_or_closed_current (c : Conn) (msgs : List (LoadsOutcome × SendOutcome)) :
-    (runLoop Facts.C05.guards { conn := c, phase := .receiving } msgs).phase = .receiving ∨
-    (runLoop Facts.C05.guards { conn := c, phase := .receiving } msgs).phase = .closed :=
-  session_serving_or_closed _ facts_guards_adequate c msgs
 
 end Aiorpcx.C05
